@@ -79,8 +79,9 @@ impl Scenario for MacScenario {
             p["site_seed"] = json!(r.next_u64() >> 12);
             // "consistent": the corrupt helper adds the same error to a product share it sends AND to the copy of
             // that share it contributes to the opening, so that the two copies agree and only the MAC can catch it
-            p["attack"] = json!(if field == "vec16" { r.pick(&["lane_cancel", "lane_cancel", "consistent", "single"]) } else if field != "prf" && r.chance(1, 2) { "consistent" } else { "single" });
+            p["attack"] = json!(if field == "vec16" { r.pick(&["lane_cancel", "lane_cancel", "consistent", "single"]) } else if field != "prf" { r.pick(&["consistent", "consistent", "single", "single", "rush"]) } else { "single" });
             p["lanes"] = json!([r.below(16), r.below(16)]);
+            p["slow_corrupt"] = json!(r.chance(3, 4));
         }
         p["sched"] = SchedSpec::draw(&mut r, est, 3_000_000);
         p
@@ -219,6 +220,169 @@ where
     OneRun { outcome, res: log.lock().unwrap().clone(), inv: t.chans.clone(), fired: t.fired.clone() }
 }
 
+// ------------------------------------------------------------------------------------------------
+// F1a for the MAC check: a "rushing" corrupt helper.  It alters a product share (and the copy it
+// contributes to the opening), is late in the batch's check-zero step, and - once its right-hand
+// neighbour, which never waits for it, has opened its shares of r*T - replaces its own
+// multiplication message (and the copy it opens) by the value that makes r*T open to zero.
+// ------------------------------------------------------------------------------------------------
+
+struct RushSt<E> {
+    pos: BTreeMap<(usize, usize, String), usize>,
+    z1: Option<E>,
+    z2: Option<E>,
+    repl: Option<E>,
+    fired: Vec<Value>,
+    too_early: u64,
+}
+
+struct RushCz<E> {
+    c: usize,
+    w: usize,
+    batch: usize,
+    st: StdMutex<RushSt<E>>,
+}
+
+impl<E: Field + Serializable> RushCz<E> {
+    fn peek(&self, ctx: &crate::helpers::in_memory_config::InspectContext, data: &mut Vec<u8>) {
+        let crate::helpers::in_memory_config::InspectContext::MpcMessage { source, dest, gate, .. } = ctx else { return };
+        let hid = |h: crate::helpers::HelperIdentity| if h == crate::helpers::HelperIdentity::ONE { 0 } else if h == crate::helpers::HelperIdentity::TWO { 1 } else { 2 };
+        let (src, dst, gate) = (hid(*source), hid(*dest), gate.as_ref().to_string());
+        let (is_m, is_r) = (gate.ends_with("/check_zero/multiply_with_r"), gate.ends_with("/check_zero/reveal_r"));
+        if !(is_m || is_r) {
+            return;
+        }
+        let mut st = self.st.lock().unwrap();
+        let start = { let e = st.pos.entry((src, dst, gate.clone())).or_insert(0); let s0 = *e; *e += data.len(); s0 };
+        // the batch's message occupies [batch*w, batch*w + w) of the stream; only handled when it arrives whole
+        let lo = self.batch * self.w;
+        if !(start <= lo && lo + self.w <= start + data.len()) {
+            return;
+        }
+        let off = lo - start;
+        let (c, right, left) = (self.c, (self.c + 1) % 3, (self.c + 2) % 3);
+        let read = |d: &[u8]| E::deserialize(GenericArray::from_slice(&d[off..off + self.w])).ok();
+        if src == right && dst == c {
+            // what the right-hand neighbour sends us: its product share (our right share), then - in the opening - its right share
+            if is_m { st.z1 = read(data); } else { st.z2 = read(data); }
+        } else if src == c && dst == left && is_m {
+            match (st.z1, st.z2) {
+                (Some(a), Some(b)) => {
+                    let v = -(a + b);
+                    let mut buf = GenericArray::<u8, E::Size>::default();
+                    v.serialize(&mut buf);
+                    data[off..off + self.w].copy_from_slice(&buf);
+                    st.repl = Some(v);
+                    st.fired.push(json!({"gate": gate, "what": "own product share of r*T replaced so that r*T opens to zero"}));
+                }
+                _ => st.too_early += 1,
+            }
+        } else if src == c && dst == right && is_r {
+            if let Some(v) = st.repl {
+                let mut buf = GenericArray::<u8, E::Size>::default();
+                v.serialize(&mut buf);
+                data[off..off + self.w].copy_from_slice(&buf);
+                st.fired.push(json!({"gate": gate, "what": "same value in the copy opened to the right-hand neighbour"}));
+            }
+        }
+    }
+}
+
+async fn pipeline<'a, F>(ctx: crate::protocol::context::MaliciousContext<'a>, shares: Vec<(Replicated<F>, Replicated<F>)>, records: usize, ignore_own_verdict: bool) -> Result<Vec<Vec<u8>>, Error>
+where
+    F: MacField,
+    (Replicated<F>, Replicated<F>): Upgradable<crate::protocol::context::UpgradedMaliciousContext<'a, F>, Output = (crate::secret_sharing::replicated::malicious::AdditiveShare<F>, crate::secret_sharing::replicated::malicious::AdditiveShare<F>)>,
+    crate::secret_sharing::replicated::malicious::AdditiveShare<F>: SecureMul<crate::protocol::context::UpgradedMaliciousContext<'a, F>> + crate::protocol::basics::Reveal<crate::protocol::context::UpgradedMaliciousContext<'a, F>, Output = <F as crate::secret_sharing::Vectorizable<1>>::Array>,
+{
+    let ctx = ctx.set_total_records(records);
+    let v = ctx.validator::<F>();
+    let m_ctx = v.context();
+    m_ctx
+        .try_join(zip(repeat(m_ctx.clone()).enumerate(), shares.into_iter()).map(|((i, c), (a, b))| async move {
+            let rid = RecordId::from(i);
+            let (a, b) = (a, b).upgrade(c.narrow("upgrade"), rid).await?;
+            let z = a.multiply(&b, c.narrow("mult"), rid).await?;
+            // a corrupt helper does not stop because its own view of the check disagrees: it goes on to the opening
+            let verdict = c.validate_record(rid).await;
+            if !ignore_own_verdict {
+                verdict?;
+            }
+            let opened = reveal(c.narrow("open"), rid, &z).await?;
+            Ok::<_, Error>(ser(&opened.into_iter().next().unwrap()))
+        }))
+        .await
+}
+
+/// Pipeline workload with every helper on a task of its own (so that the scheduler can make one of them late), the
+/// given rewriting sites and the rushing check-zero behaviour of helper `corrupt` in batch `batch`.
+fn run_rush<F>(p: &Value, spec: &SchedSpec, xs: &[F], ys: &[F], sites: Vec<Site>, corrupt: usize, batch: usize) -> (OneRun, u64)
+where
+    F: MacField,
+    F: IntoShares<Replicated<F>>,
+    for<'a> (Replicated<F>, Replicated<F>): Upgradable<crate::protocol::context::UpgradedMaliciousContext<'a, F>, Output = (crate::secret_sharing::replicated::malicious::AdditiveShare<F>, crate::secret_sharing::replicated::malicious::AdditiveShare<F>)>,
+    for<'a> crate::secret_sharing::replicated::malicious::AdditiveShare<F>: SecureMul<crate::protocol::context::UpgradedMaliciousContext<'a, F>> + crate::protocol::basics::Reveal<crate::protocol::context::UpgradedMaliciousContext<'a, F>, Output = <F as crate::secret_sharing::Vectorizable<1>>::Array>,
+{
+    use typenum::Unsigned;
+    let records = pu(p, "records");
+    let knobs = &p["knobs"];
+    let (active, read_size, world_seed) = (pu(knobs, "active"), pu(knobs, "read_size"), pu64(knobs, "world_seed"));
+    let input_seed = pu64(p, "input_seed");
+    let (tamper, _) = faults::tamper_many(sites);
+    let rush = StdArc::new(RushCz::<F::ExtendedField> {
+        c: corrupt, w: <<F::ExtendedField as Serializable>::Size as Unsigned>::USIZE, batch,
+        st: StdMutex::new(RushSt { pos: BTreeMap::new(), z1: None, z2: None, repl: None, fired: Vec::new(), too_early: 0 }),
+    });
+    let (t2, r2) = (StdArc::clone(&tamper), StdArc::clone(&rush));
+    let interceptor: crate::helpers::in_memory_config::DynStreamInterceptor = crate::sync::Arc::new(move |ctx: &crate::helpers::in_memory_config::InspectContext, data: &mut Vec<u8>| {
+        crate::helpers::in_memory_config::StreamInterceptor::peek(&*t2, ctx, data);
+        r2.peek(ctx, data);
+    });
+    let log: StdArc<StdMutex<BTreeMap<usize, HelperRes>>> = StdArc::new(StdMutex::new(BTreeMap::new()));
+    let log2 = StdArc::clone(&log);
+    let (xs, ys) = (xs.to_vec(), ys.to_vec());
+    let slow = p.get("slow_corrupt").and_then(Value::as_bool) != Some(false);
+    let outcome = sim_async(spec, StdArc::new(AtomicBool::new(false)), move || {
+        let (log, xs, ys, interceptor) = (StdArc::clone(&log2), xs.clone(), ys.clone(), interceptor.clone());
+        async move {
+            let keep = SharedWorld::new(TestWorld::new_with(&world_config(world_seed, active, read_size, Some(interceptor))));
+            // SAFETY: `keep` outlives every use here and each helper task holds its own clone
+            let world: &'static TestWorld = unsafe { keep.get() };
+            let mut rng = StdRng::seed_from_u64(input_seed ^ 0x5a5a);
+            let mut inputs: [Vec<(Replicated<F>, Replicated<F>)>; 3] = [Vec::new(), Vec::new(), Vec::new()];
+            for (x, y) in zip(xs, ys) {
+                let [x0, x1, x2] = x.share_with(&mut rng);
+                let [y0, y1, y2] = y.share_with(&mut rng);
+                inputs[0].push((x0, y0));
+                inputs[1].push((x1, y1));
+                inputs[2].push((x2, y2));
+            }
+            let mut handles = Vec::new();
+            for (ctx, shares) in zip(world.malicious_contexts(), inputs) {
+                let (log, keep_node) = (StdArc::clone(&log), keep.share());
+                handles.push(shuttle::future::spawn(async move {
+                    let _keep_node = keep_node;
+                    let h = role_idx(ctx.role());
+                    if h == corrupt && slow {
+                        // F5, targeted: the corrupt helper's task only moves when nobody else can
+                        crate::verif::sim::mark_current_task_slow();
+                    }
+                    let r = pipeline::<F>(ctx, shares, records, h == corrupt).await;
+                    log.lock().unwrap().insert(h, r.map_err(|e| e.to_string()));
+                }));
+            }
+            for h in handles {
+                h.await.unwrap();
+            }
+            drop(keep);
+        }
+    });
+    let t = tamper.log.lock().unwrap();
+    let rs = rush.st.lock().unwrap();
+    let mut fired = t.fired.clone();
+    fired.extend(rs.fired.iter().cloned());
+    (OneRun { outcome, res: log.lock().unwrap().clone(), inv: t.chans.clone(), fired }, rs.fired.len() as u64 * 1000 + rs.too_early)
+}
+
 fn exec_f<F>(p: &Value, explicit: Option<Vec<u32>>, tampered: bool, width: usize) -> RunRes
 where
     F: MacField,
@@ -260,9 +424,12 @@ where
     let corrupt = pu(p, "corrupt");
     let mut sr = Rng::sub(pu64(p, "site_seed"), 0);
     let addle = format!("addle:{width}");
-    let consistent = p.get("attack").and_then(Value::as_str) == Some("consistent");
+    let rush = p.get("attack").and_then(Value::as_str) == Some("rush");
+    let consistent = rush || p.get("attack").and_then(Value::as_str) == Some("consistent");
+    // the record whose product share is altered (rush: its batch is the one whose check-zero step the helper rushes)
+    let target = Rng::sub(pu64(p, "site_seed"), 0).below(records);
     let sites: Vec<Site> = match p.get("site") {
-        Some(s) if !s.is_null() => Site::list_from_json(s),
+        Some(s) if !s.is_null() && !rush => Site::list_from_json(s),
         _ if consistent => {
             // product share message of the corrupt helper, and its opening message to the helper that did not receive it
             let k = sr.below(records);
@@ -288,6 +455,21 @@ where
         return RunRes::inconclusive("no_site", "no channel of the corrupt helper".into(), shape, Some(honest.outcome));
     }
     let need = sites.len();
+    if rush {
+        // helpers as separate tasks; the corrupt one additionally rushes the check-zero step of the target record's batch
+        let batch = target / pu(&p["knobs"], "active");
+        let (bad, rush_stat) = run_rush::<F>(p, &spec, &xs, &ys, sites.clone(), corrupt, batch);
+        let mut res = judge_tampered(&bad, &want, corrupt, &sites, need, &field, honest.inv.len(), shape);
+        let (replaced, too_early) = (rush_stat / 1000, rush_stat % 1000);
+        res.fault("F1a_rushing_check_zero", u64::from(replaced >= 2));
+        res.probe(if replaced >= 2 { "rush_window_open" } else { "rush_no_opportunity" }, 1);
+        res.probe("rush_messages_sent_before_peer_opened", too_early);
+        if res.verdict == Verdict::Violation && replaced >= 2 {
+            res.class = "mac_check_zero_defeated_by_late_helper".into();
+            res.detail = format!("{} [rushing: helper {} altered a product share, was late in the check-zero step of batch {batch} and, after its right-hand neighbour had opened its shares of r*T without waiting for it, replaced its own share of r*T so that it opens to zero]", res.detail, corrupt + 1);
+        }
+        return res;
+    }
     let bad = run_f::<F>(p, &spec, &xs, &ys, sites.clone());
     judge_tampered(&bad, &want, corrupt, &sites, need, &field, honest.inv.len(), shape)
 }
